@@ -53,12 +53,16 @@ def compare_run(ck, frontend, setname, table, contexts, run, expected, single=No
         exc = run.error.exc
         from ..repo import unparse
         site = f' at `{unparse(run.error.node, 80)}`' if run.error.node is not None else ''
-        ck.violate('C05.run', f'{frontend}:raises-{exc.tname}:{error_class(run.error)}',
+        # keyed by front end, exception and the kind of table (not by the text of the raising statement)
+        variant = setname.split('/', 1)[1] if '/' in setname else 'regular-table'
+        ck.violate('C05.run', f'{frontend}:raises-{exc.tname}:{variant}',
                    f'{label0}: the front end raises {exc.tname}{exc.args}{site}', dict(set=setname))
         return
     used = set()
     tclass = 'duplicate-labels' if table.index_labels and len(set(table.index_labels)) < len(table.index_labels) else \
         ('labelled-index' if table.index_labels else 'table')
+    if tclass == 'table' and (table.missing.get('time') or table.t != sorted(table.t)):
+        tclass = 'non-monotonic-time'
     for (ci, sid, mod, test), (rows, direct) in expected.items():
         if single is not None and sid != single:
             continue
@@ -212,7 +216,7 @@ def run(ck):
                               ('two-contexts', [dict(window=(t(0), t(2)), tests=lite), dict(window=(t(2), t(5)), tests=lite)])):
         src = make_config_source(contexts)
         expected = expected_direct(ck.runner, shuffled, contexts)
-        for fe in ('numpy', 'netcdf', 'pandas'):
+        for fe in ('numpy', 'netcdf', 'pandas', 'xarray'):
             compare_run(ck, fe, setname + '/unsorted-times', shuffled, contexts, run_frontend(ck.runner, fe, shuffled, src), expected)
     # a row without a timestamp (NaT): it belongs to no window, whichever bounds the window has
     nat = Table(5, missing={'a': {2}, 'time': {3}})
@@ -221,7 +225,7 @@ def run(ck):
                               ('ending-only', [dict(window=(None, t(4)), tests=lite2)])):
         src = make_config_source(contexts)
         expected = expected_direct(ck.runner, nat, contexts)
-        for fe in ('numpy', 'netcdf', 'pandas'):
+        for fe in ('numpy', 'netcdf', 'pandas', 'xarray'):
             compare_run(ck, fe, setname + '/row-without-timestamp', nat, contexts, run_frontend(ck.runner, fe, nat, src), expected)
     # instants and window edges that are not on whole seconds; for NumpyStream also with the time axis given as epoch seconds (floats)
     for carrier, fes in (('dt64', ('numpy', 'netcdf', 'pandas')), ('epoch_float', ('numpy',))):
@@ -245,7 +249,7 @@ def run(ck):
                 dict(window=(t(0), t(2)), tests={'b': ['flat', 'valid']})]
     src = make_config_source(contexts)
     expected = expected_direct(ck.runner, table, contexts)
-    for fe in ('numpy', 'netcdf', 'pandas'):
+    for fe in ('numpy', 'netcdf', 'pandas', 'xarray'):
         compare_run(ck, fe, 'same-window-non-adjacent', table, contexts, run_frontend(ck.runner, fe, table, src), expected)
     # a frame with repeated row labels (two frames concatenated without ignore_index)
     dup = Table(5, missing={'a': {2}}, index_labels=[0, 1, 2, 0, 1])
